@@ -146,3 +146,82 @@ func ZZ_C03_keys() {
 	ib := b.Chain.String() + ":" + b.Transaction + ":" + string(rune('0'+b.Index))
 	vr.Assert(ia != ib, "identifier-strings-differ")
 }
+
+// ZZ_C03_multi: one admission request over two outputs whose reservations are arbitrary
+// (free, held by the requester, held by another pending or finalized transaction): the
+// request is granted iff every slot is individually grantable, it is all-or-nothing, and
+// afterwards every slot names its model holder.
+func ZZ_C03_multi() {
+	s := ZZNewStore()
+	B := zzHash()
+	vr.Assume(B.HasValue())
+	type slot struct {
+		hash   crypto.Hash
+		index  uint
+		holder crypto.Hash
+		final  bool
+	}
+	slots := make([]*slot, 2)
+	for i := range slots {
+		sl := &slot{hash: zzHash(), index: uint(i)}
+		u := &common.UTXOWithLock{}
+		u.Hash, u.Index = sl.hash, sl.index
+		u.Type = common.OutputTypeScript
+		u.Amount = common.NewInteger(1)
+		k := crypto.Key(zzHash())
+		u.Keys = []*crypto.Key{&k}
+		u.Mask = crypto.Key(zzHash())
+		u.Script = common.NewThresholdScript(1)
+		u.Asset = zzHash()
+		switch vr.Choose(0, 2) {
+		case 1:
+			sl.holder = B // a stale reservation of the requester itself
+		case 2:
+			sl.holder = zzHash()
+			vr.Assume(sl.holder.HasValue() && sl.holder != B)
+			if vr.Bool() {
+				zzSet(s, graphTransactionKey(sl.holder), []byte{1})
+			}
+			if vr.Bool() {
+				sl.final = true
+				zzSet(s, graphFinalizationKey(sl.holder), []byte{1})
+			}
+		}
+		u.LockHash = sl.holder
+		zzSet(s, graphUtxoKey(sl.hash, sl.index), u.Marshal())
+		slots[i] = sl
+	}
+	vr.Assume(slots[0].hash != slots[1].hash)
+	if slots[0].holder.HasValue() && slots[1].holder.HasValue() && slots[0].holder != B && slots[1].holder != B {
+		// the same other transaction may hold both
+		if vr.Bool() {
+			vr.Assume(slots[0].holder == slots[1].holder && slots[0].final == slots[1].final)
+		} else {
+			vr.Assume(slots[0].holder != slots[1].holder)
+		}
+	}
+	fork := vr.Bool()
+	grantable := true
+	for _, sl := range slots {
+		ok := !sl.holder.HasValue() || sl.holder == B || (fork && !sl.final)
+		grantable = grantable && ok
+	}
+	before := zzDump(s)
+	err := s.LockUTXOs([]*common.Input{{Hash: slots[0].hash, Index: slots[0].index}, {Hash: slots[1].hash, Index: slots[1].index}}, B, fork)
+	after := zzDump(s)
+	if !grantable {
+		vr.Cover("refused")
+		vr.Assert(err != nil, "request-with-an-ungrantable-input-is-refused")
+		vr.Assert(zzSameDump(before, after), "refused-request-changes-nothing")
+		return
+	}
+	vr.Cover("granted")
+	vr.Assert(err == nil, "request-with-all-inputs-grantable-is-granted")
+	for _, sl := range slots {
+		u, rerr := s.ReadUTXOLock(sl.hash, sl.index)
+		vr.Assert(rerr == nil && u != nil && u.LockHash == B, "every-input-names-the-requester")
+		if sl.holder.HasValue() && sl.holder != B {
+			vr.Assert(!zzHas(s, graphTransactionKey(sl.holder)), "displaced-transaction-body-removed-in-the-same-write")
+		}
+	}
+}
